@@ -50,6 +50,7 @@ def book_mc(ck, name, inv=ALL_INV, act=ALL_ACT, timeout=600, workers=12, **kw):
 
 def setup():
     core.build_harness()
+    core.build_pyext()
     return 0
 
 
@@ -165,6 +166,10 @@ def c05(tier, seed):
         env_gen(ck, "gen_env_overflow3", kind="env", seeds=32, StepSize=2, Ops=["new", "cancel", "step"], Kinds=["L"], Prices=[10],
                 Vols=[1], MaxSubmits=5, MaxBatch=3, MaxSteps=2, MaxOrders=5,
                 need=("batch_exceeds_step_size", "has_trade", "multi_step"), timeout=1800)
+    # random runs whose batches exceed the step size (step sizes 1..3, batches up to 12): timestamps run into the next step
+    env_traces(ck, "rand_env_overflow", {"step_sizes": [1, 2, 3], "max_batch": 12, "p_step": 0.1, "nprices": 4}, files=6 if q else 48, runs=3 if q else 6, ops=200)
+    env_traces(ck, "rand_env_overflow_inferred", {"step_sizes": [1, 2], "max_batch": 6, "p_step": 0.2, "nprices": 4}, files=4 if q else 32, runs=3 if q else 6,
+               ops=120, hook=False)
     prof = {"discipline": False, "p_tie": 0.5, "nprices": 6, "audit_every": 25, "w": {"modify": 4, "reload": 0.5, "toggle": 0.3}}
     ck.traces_stage("rand_ties", "record_book", prof, files=8 if q else 64, runs=2 if q else 4, ops=300)
     return ck.finish("model_checking", LEVEL_TEXT, RULE + "queueing calls made without advancing the clock",
@@ -233,6 +238,7 @@ def c12(tier, seed):
     # queued modify instructions with arbitrary new prices (known finding F3 lives here)
     env_gen(ck, "gen_env_grid_modify", kind="env", seeds=2, Ticks=(2,), Ops=["new", "modify", "step"], Kinds=["L"], Prices=[10], Vols=[1],
             ModPrices=[12, 13], ModVolsAbs=[-1], MaxSubmits=3, MaxBatch=3, MaxSteps=2, MaxOrders=2, need=("has_modify",), timeout=300)
+    env_traces(ck, "rand_env_grid", {"p_offgrid": 0.3, "ticks": [2, 3, 4, 5, 7, 10], "max_batch": 10, "p_step": 0.12}, files=6 if q else 48, runs=3 if q else 6, ops=200)
     prof = {"discipline": True, "audit_every": 5, "p_offgrid": 0.3, "ticks": [2, 3, 4, 5, 6, 7, 8, 9, 10], "w": {"modify": 4, "create": 4}}
     ck.traces_stage("rand_grid", "record_book", prof, files=8 if q else 64, runs=2 if q else 4, ops=300)
     # arbitrary new prices in modify requests (known finding F3 lives here)
@@ -260,6 +266,8 @@ def c13(tier, seed):
     env_gen(ck, "gen_env_toggle", kind="env", seeds=4 if q else 16, Ops=["new", "modify", "step", "disable", "enable"], Kinds=["L", "M"],
             Prices=[10, 11], Vols=[1], ModPrices=[10, 11], ModVolsAbs=[-1], MaxSubmits=3, MaxBatch=2, MaxSteps=2, MaxOrders=2,
             need=("trading_toggled", "has_trade", "has_modify"), timeout=300 if q else 1500)
+    env_traces(ck, "rand_env_toggle", {"p_toggle": 0.12, "p_market": 0.3, "p_modify": 0.25, "nprices": 5, "max_batch": 10, "p_step": 0.12}, files=6 if q else 48,
+               runs=3 if q else 6, ops=200)
     prof = {"discipline": True, "audit_every": 25, "nprices": 6, "trading0": [True, False], "w": {"toggle": 2.5, "modify": 4}}
     ck.traces_stage("rand_toggle", "record_book", prof, files=8 if q else 64, runs=2 if q else 4, ops=300)
     return ck.finish("model_checking", LEVEL_TEXT, RULE + "generated histories ending with trading off / recorded crossed states",
@@ -304,6 +312,13 @@ def mkt_gen(ck, name, need=(), timeout=600, workers=12, trunc_every=0, **kw):
     return ck.gen(name, "MarketGen", c, "replay_market", rargs, cfg=MKT_GEN, need=need, timeout=timeout, workers=workers)
 
 
+def env_traces(ck, name, profile, files, runs, ops, hook=True, timeout=600):
+    """record-validate for Env / MarketEnv: long random runs recorded from the real environments, validated by TLC against
+    EnvTrace.tla - with the schedule the hook reported (linear) or hook-free by schedule inference."""
+    ck.traces_stage(name, "record_env", dict(profile, hook=hook), files=files, runs=runs, ops=ops, trace_spec="EnvTrace",
+                    consts={"MaxPrice": MAXPRICE, "UseHook": hook}, view="View", timeout=timeout)
+
+
 ENV_RULE = ("paths: every sequence of submissions / steps / toggles of the bounded generator configs; for each path TLC emits the "
             "complete set of (schedule, outcome) pairs the specification allows and the real environment is run on it under several "
             "seeds (outcome must be a member; must equal the outcome of the schedule reported by the hook); non-trivial = ")
@@ -328,8 +343,13 @@ def c08(tier, seed):
     env_gen(ck, "gen_menv", kind="menv", seeds=s, Ticks=(1, 2), StepSize=3, Ops=["new", "cancel", "step", "disable", "enable"], Kinds=["L"] if q else ["L", "M"],
             Prices=[10], MaxSubmits=3, MaxBatch=3, MaxSteps=2, MaxOrders=2,
             need=("schedule_matters", "has_trade", "trading_toggled"), timeout=400 if q else 1800)
-    return ck.finish("model_checking", LEVEL_TEXT, ENV_RULE + "paths whose outcome depends on the schedule",
-                     ("gen_env_new_cancel.schedule_matters", "gen_env_modify.schedule_matters", "gen_menv.schedule_matters"))
+    # long random runs, batches up to 25 instructions (step sizes from 1 to 1000): schedule from the hook, linear validation
+    env_traces(ck, "rand_env_hook", {"max_batch": 25, "p_step": 0.06}, files=6 if q else 48, runs=3 if q else 6, ops=250, hook=True)
+    # hook-free: TLC infers a processing order that explains each step (batches up to 8)
+    env_traces(ck, "rand_env_inferred", {"max_batch": 8, "p_step": 0.15}, files=6 if q else 48, runs=3 if q else 6, ops=160, hook=False)
+    return ck.finish("model_checking", LEVEL_TEXT, ENV_RULE + "paths whose outcome depends on the schedule + recorded steps with batches of 4 or more",
+                     ("gen_env_new_cancel.schedule_matters", "gen_env_modify.schedule_matters", "gen_menv.schedule_matters",
+                      "rand_env_hook.steps_with_batch_of_4_or_more", "rand_env_inferred.steps_with_batch_of_4_or_more"))
 
 
 def c10(tier, seed):
@@ -347,6 +367,8 @@ def c10(tier, seed):
             Sides=["B"], MaxSubmits=2, MaxBatch=2, MaxSteps=2, MaxOrders=2, need=("trading_toggled",), timeout=400 if q else 1800)
     env_gen(ck, "gen_menv_submit", kind="menv", seeds=s, Ticks=(1, 1), Ops=["new", "cancel", "step"], Kinds=["L"], MaxSubmits=3 if q else 4,
             MaxBatch=3, MaxSteps=2, MaxOrders=2, need=("submit_after_step", "has_trade"), timeout=400 if q else 1800)
+    # random interleavings: many submissions between steps (every one of them must be invisible), toggles
+    env_traces(ck, "rand_env_submissions", {"max_batch": 12, "p_step": 0.08, "p_toggle": 0.05, "p_market": 0.3}, files=6 if q else 48, runs=3 if q else 6, ops=200)
     return ck.finish("model_checking", LEVEL_TEXT, ENV_RULE + "paths ending in a submission made after at least one step",
                      ("gen_env_submit.submit_after_step", "gen_menv_submit.submit_after_step"))
 
@@ -370,6 +392,9 @@ def c11(tier, seed):
             need=("multi_step", "has_modify"), timeout=400 if q else 1800)
     env_gen(ck, "gen_env_records_l10", kind="env", seeds=s, NLevels=10, Ops=["new", "step"], Kinds=["L"], Prices=[10, 13, 19], Vols=[1, 2],
             Sides=["B", "A"], MaxSubmits=3, MaxBatch=2, MaxSteps=2, MaxOrders=3, need=("multi_step",), timeout=400 if q else 1800)
+    # random runs: every level count the harness instantiates, up to 4 assets, many steps; all series compared in full at audit events
+    env_traces(ck, "rand_env_records", {"max_batch": 6, "p_step": 0.3, "levels": [1, 2, 3, 4, 10], "assets": [1, 2, 3, 4], "nprices": 14}, files=6 if q else 48,
+               runs=3 if q else 6, ops=200)
     return ck.finish("model_checking", LEVEL_TEXT, ENV_RULE + "paths with at least two steps",
                      ("gen_env_records.multi_step", "gen_menv_records.multi_step", "gen_env_records_l10.multi_step"))
 
@@ -395,6 +420,10 @@ def c14(tier, seed):
     # shuffled batches across assets
     env_gen(ck, "gen_menv_assets", kind="menv", seeds=8 if q else 32, Ticks=(1, 2), Ops=["new", "cancel", "step"], Kinds=["L", "M"], Prices=[10, 12],
             MaxSubmits=3 if q else 4, MaxBatch=3, MaxSteps=2, MaxOrders=2, need=("schedule_matters", "has_trade"), timeout=400 if q else 1800)
+    env_traces(ck, "rand_menv_assets", {"kind": "menv", "assets": [2, 3, 4], "ticks": [1, 2, 3, 5], "max_batch": 16, "p_step": 0.08}, files=6 if q else 48,
+               runs=3 if q else 6, ops=250)
+    env_traces(ck, "rand_menv_assets_inferred", {"kind": "menv", "assets": [2, 3], "ticks": [1, 2], "max_batch": 7, "p_step": 0.15}, files=4 if q else 32,
+               runs=3 if q else 6, ops=120, hook=False)
     return ck.finish("model_checking", LEVEL_TEXT, "histories over 2-3 assets (direct market operations: one TLC state = one history; environment: "
                      "outcome sets); non-trivial = histories that address at least two assets",
                      ("gen_market2.ops_on_two_assets", "gen_market2_modify_toggle.ops_on_two_assets", "gen_market3.ops_on_two_assets"))
@@ -413,12 +442,16 @@ def c09(tier, seed):
     for i in range(48 if q else 240):
         configs.append({"seed": rnd.randrange(1, 1 << 40), "steps": rnd.choice([1, 2, 5, 17, 40, 60] if q else [1, 3, 10, 40, 120, 200]),
                         "step_size": rnd.choice([1, 7, 1000, 100000]), "tick": rnd.choice([1, 2, 5, 10]), "comp": comps[i % len(comps)]})
+    # boundary seeds: 0 and 1 (a zero-seed guard aliases them), the extremes and the word boundary
+    for i, sd in enumerate([0, 1, (1 << 64) - 1, (1 << 32) - 1, 1 << 63, 2]):
+        configs[i]["seed"] = sd
+        configs[i]["steps"] = max(configs[i]["steps"], 17)
     cf = os.path.join(d, "configs.json")
     json.dump(configs, open(cf, "w"))
     t0 = time.time()
     outs = {}
     procs = []
-    for tag, prog, shift in (("A", "false", 0), ("B", "false", 0), ("C", "true", 0), ("D", "false", 7919)):
+    for tag, prog, shift in (("A", "false", 0), ("B", "false", 0), ("C", "true", 0), ("D", "false", 1), ("E", "false", 1 << 32)):
         outs[tag] = os.path.join(d, tag + ".ndjson")
         # separate OS processes (own address space, own hash seeds, own start time)
         procs.append((tag, subprocess.Popen([os.path.join(core.BIN, "sim_run"), "--configs", cf, "--out", outs[tag], "--progress", prog,
@@ -429,7 +462,7 @@ def c09(tier, seed):
             ck.violation("runs", "simulation process %s aborted: %s" % (tag, err[-600:]), {"kind": "panic", "configs": configs, "process": tag})
     if not ck.violations:
         tl, text = core.tlc_check("C09_eq", "SimEq", {}, ["SPECIFICATION Spec", "INVARIANT Verdict"], workers=1, timeout=900,
-                                  env_extra={"TRACE": outs["A"], "TRACE2": outs["B"], "TRACE3": outs["C"], "TRACE4": outs["D"],
+                                  env_extra={"TRACE": outs["A"], "TRACE2": outs["B"], "TRACE3": outs["C"], "TRACE4": outs["D"], "TRACE5": outs["E"],
                                              "JAVA_TOOL_OPTIONS": "-Xss1g -Xmx8g"})
         rej = core.tagged_lines(text, "TRACE-REJECT")
         acc = core.tagged_lines(text, "ACCEPTED")
@@ -446,13 +479,13 @@ def c09(tier, seed):
         ck.states += tl["distinct"]
         ck.transitions += nlines if isinstance(nlines, int) else 0
         ck.features["output_lines_compared"] = nlines if isinstance(nlines, int) else 0
-    ck.traces += 4 * len(configs)
+    ck.traces += 5 * len(configs)
     ck.features["configurations"] = len(configs)
-    ck.samples.append({"stage": "runs", "kind": "one configuration (run as 4 separate OS processes)", "case": configs[0]})
-    ck.stages.append({"stage": "runs", "kind": "4 OS processes x %d configurations through sim_runner / market_sim_runner with derive-macro agent sets; TLC compares outputs line by line" % len(configs),
+    ck.samples.append({"stage": "runs", "kind": "one configuration (run as 5 separate OS processes)", "case": configs[0]})
+    ck.stages.append({"stage": "runs", "kind": "5 OS processes x %d configurations through sim_runner / market_sim_runner with derive-macro agent sets; TLC compares outputs line by line" % len(configs),
                       "configurations": len(configs), "wall_s": round(time.time() - t0, 1)})
     ck.assumptions.append("a nondeterminism source that happens to be stable across the repeated processes on this machine is not seen (DESIGN.md section 8)")
-    log("[runs] %d configurations x 4 processes, %s output lines compared by TLC" % (len(configs), ck.features.get("output_lines_compared")))
+    log("[runs] %d configurations x 5 processes, %s output lines compared by TLC" % (len(configs), ck.features.get("output_lines_compared")))
     return ck.finish("model_checking", "TLC compares complete simulation outputs (orders, trades, recorded level-2 history, per-step volume) of repeated runs in "
                      "separate OS processes, with and without the progress bar, line by line, and requires shifted seeds to give different runs; the "
                      "behaviours themselves are constrained by the specification through C08 (steps) and C16 (agents).",
@@ -485,7 +518,9 @@ def c15(tier, seed):
     if "BijectionOK is violated" in text:
         raise ToolError("C15: the Fisher-Yates model is not a bijection (specification error)")
     if rej:
-        ck.violation("histograms", "recorded schedule statistics outside the exact concentration bound: %s" % json.dumps(rej[0])[:400],
+        what = ("the processing order is not a function of the generator state and the batch size alone: %s" if str(rej[0].get("event", {}).get("kind", "")).startswith("det")
+                else "recorded schedule statistics outside the exact concentration bound: %s")
+        ck.violation("histograms", what % json.dumps(rej[0])[:500],
                      {"kind": "histogram", "reject": rej[0], "seed": seed, "tables_file": out, "L": L, "cells": K})
     elif not acc:
         raise ToolError("C15: TLC failed on the histogram predicate:\n" + text[-2500:])
@@ -516,7 +551,7 @@ def c20(tier, seed):
     from . import shapes
     ck = Check("C20", tier, seed)
     t0 = time.time()
-    tl, text = core.tlc_check("C20_shapes", "AgentSet", {}, ["INIT GInit", "NEXT GNext", "INVARIANT EmitShape", "INVARIANT SizeOK"], workers=1, timeout=300)
+    tl, text = core.tlc_check("C20_shapes", "AgentSet", {"Full": tier != "quick"}, ["INIT GInit", "NEXT GNext", "INVARIANT EmitShape", "INVARIANT SizeOK"], workers=1, timeout=300)
     if not tl["ok"]:
         raise ToolError("C20: shape enumeration failed:\n" + text[-2000:])
     sh = core.tagged_lines(text, "SHAPE")
@@ -539,7 +574,7 @@ def c20(tier, seed):
     if o.returncode != 0:
         ck.violation("derive", "derived agent set aborted: " + o.stderr[-600:], {"kind": "panic", "stderr": o.stderr[-2000:]})
     else:
-        tl2, text2 = core.tlc_check("C20_validate", "AgentSet", {}, ["INIT VInit", "NEXT VNext", "INVARIANT Verdict"], workers=1, timeout=300,
+        tl2, text2 = core.tlc_check("C20_validate", "AgentSet", {"Full": False}, ["INIT VInit", "NEXT VNext", "INVARIANT Verdict"], workers=1, timeout=300,
                                     env_extra={"TRACE": out, "JAVA_TOOL_OPTIONS": "-Xss1g"})
         rej = core.tagged_lines(text2, "TRACE-REJECT")
         acc = core.tagged_lines(text2, "ACCEPTED")
@@ -556,6 +591,10 @@ def c20(tier, seed):
     ck.features["traces"] = n
     ck.features["shapes_with_nested_sets"] = sum(1 for x in sh if any(f["t"] == "S" for f in x["shape"]["f"]))
     ck.features["max_leaves"] = max(x["n"] for x in sh)
+    ck.features["structs_with_non_alphabetical_field_names"] = sum(1 for x in sh if x.get("naming") != "ordered")
+    ck.features["structs_with_attributes_on_fields"] = sum(1 for x in sh if x.get("attrs"))
+    if not ck.features["structs_with_non_alphabetical_field_names"] or not ck.features["structs_with_attributes_on_fields"]:
+        raise ToolError("C20: vacuous - no struct with non-alphabetical names / attribute-bearing fields was generated")
     if o.stdout:
         ck.samples.append({"stage": "derive", "kind": "trace of one derived set (3 update calls; [leaf, draw, order id])", "case": json.loads(o.stdout.splitlines()[len(sh) // 2])})
     ck.stages.append({"stage": "derive", "kind": "TLC-enumerated struct shapes -> generated #[derive] structs compiled against the working tree's macro crate -> probe traces validated by TLC",
@@ -603,7 +642,126 @@ def c17(tier, seed):
                      ("momentum_saturated.updates_with_instructions", "momentum_mirror.updates_with_instructions"))
 
 
-CHECKS = {"C01": c01, "C02": c02, "C03": c03, "C04": c04, "C05": c05, "C06": c06, "C07": c07, "C08": c08, "C09": c09, "C10": c10, "C11": c11, "C14": c14, "C15": c15, "C16": c16, "C17": c17, "C20": c20, "C12": c12, "C13": c13}
+# ---------------------------------------------------------------------------------------------
+# the Python layer (C18, C19): the same generator streams through the compiled extension module
+PY_BOOK = ("INIT GInit", "NEXT PNext", "INVARIANT EmitPy", "CONSTRAINT Constr")
+PY_ENV = ("INIT GInit", "NEXT PNext", "INVARIANT EmitPy")
+PY_RULE = ("paths: every call sequence of the bounded generator configs, driven through the real compiled extension under CPython; "
+           "TLC computes from PyView.tla what Python must show after each path (tuples, codes, exception classes, array cells, "
+           "dictionary keys, data-frame columns); for environment paths the set of outcomes over all schedules; non-trivial = ")
+
+
+def py_book_gen(ck, name, need=(), timeout=600, xcheck=False, **kw):
+    import shutil
+    c = bc(**dict(dict(NLevels=10, Ops=["cap", "cancel", "modify"], Kinds=["L", "M"]), **kw))
+    rargs = ["--mode", "book", "--tick", c["Tick"], "--trading", "true" if c["Trading0"] else "false"]
+    xdir = os.path.join(core.WORK, "xsnap", "%s_%s" % (ck.prop, name))
+    if xcheck:
+        shutil.rmtree(xdir, ignore_errors=True)
+        os.makedirs(xdir)
+        rargs += ["--xdir", xdir, "--xevery", xcheck]
+    r = ck.gen(name, "PyBookGen", c, core.pycmd("pyreplay.py"), rargs, cfg=PY_BOOK, need=need, timeout=timeout, workers=4)
+    if xcheck:
+        # snapshot interchange: Python wrote, Rust loads (and writes back); then Python loads what Rust wrote
+        ck.aux(name + "_py2rs", [os.path.join(core.BIN, "xcheck"), "--snap-dir", xdir],
+               "snapshots written by Python loaded by the Rust core, compared with the specification's state")
+        ck.aux(name + "_rs2py", core.pycmd("pyreplay.py", "--mode", "xload", "--xdir", xdir),
+               "snapshots written by the Rust core loaded by Python, compared with PyView", env=core.pyenv())
+        shutil.rmtree(xdir, ignore_errors=True)
+    return r
+
+
+def py_env_gen(ck, name, mode="env", seeds=4, need=(), timeout=600, xcheck=0, **kw):
+    c = ec(**dict(dict(NLevels=10), **kw))
+    assert len(c["Ticks"]) == 1
+    rargs = ["--mode", mode, "--tick", c["Ticks"][0], "--step", c["StepSize"], "--trading", "true" if c["Trading0"] else "false",
+             "--seeds", seeds, "--base-seed", ck.seed, "--procs", 14]
+    xfile = os.path.join(core.WORK, "xsnap", "%s_%s.ndjson" % (ck.prop, name))
+    if xcheck:
+        import glob
+        os.makedirs(os.path.dirname(xfile), exist_ok=True)
+        for f in glob.glob(xfile + "*"):
+            os.remove(f)
+        rargs += ["--xfile", xfile, "--xevery", xcheck]
+    r = ck.gen(name, "PyEnvGen", c, core.pycmd("pyreplay.py"), rargs, cfg=PY_ENV, need=need, timeout=timeout, workers=4)
+    if xcheck:
+        import glob
+        with open(xfile, "w") as out:
+            for f in glob.glob(xfile + ".*"):
+                out.write(open(f).read())
+                os.remove(f)
+        ck.aux(name + "_same_seed", [os.path.join(core.BIN, "xcheck"), "--env-cases", xfile],
+               "the Rust Env under the same seed and sequence processes a schedule that explains what the Python StepEnv showed")
+        os.remove(xfile)
+    return r
+
+
+def py_traces(ck, name, mode, files, runs, ops):
+    spec = "BookTrace" if mode == "book" else "PyTrace"
+    ck.traces_stage(name, core.pycmd("pyrecord.py"), {"mode": mode}, files=files, runs=runs, ops=ops, trace_spec=spec,
+                    consts={"MaxPrice": MAXPRICE})
+
+
+def c18(tier, seed):
+    ck = Check("C18", tier, seed)
+    q = ck.quick
+    # every call sequence of the Python OrderBook API over a small alphabet: ids, touch prices, volumes, order and
+    # trade tuples (True = bid, status codes), statuses
+    py_book_gen(ck, "py_book_calls", Ops=["cap", "cancel", "modify", "settime"], Prices=[10, 11], Vols=[1, 2], ModPrices=[-1, 11],
+                ModVols=["smaller", "equal", "larger"], MaxOrders=3, MaxOps=4 if q else 5, Kinds=["L"] if q else ["L", "M"],
+                need=("has_trade", "op_modify", "op_cancel", "op_settime"), timeout=300 if q else 1500)
+    # trading toggles (rejected market orders = status 4, crossed books) and snapshots (reloaded copies driven on)
+    py_book_gen(ck, "py_book_toggle_snapshots", Ops=["cap", "cancel", "disable", "enable", "reload"], Trading0=False, Prices=[10, 11], Vols=[1, 2],
+                MaxOrders=3, MaxOps=3 if q else 4, xcheck=7 if q else 3,
+                need=("has_trade", "op_reload", "op_disable"), timeout=300 if q else 1500)
+    # off-grid prices (ValueError) and out-of-range integers (OverflowError): object unchanged
+    py_book_gen(ck, "py_book_errors", Ops=["cap", "cancel", "bad"], Tick=2, Prices=[10, 11], Vols=[1], Kinds=["L"], MaxOrders=2,
+                MaxOps=3 if q else 4, need=("value_error", "overflow_error", "has_trade"), timeout=300 if q else 1500)
+    # StepEnv: outcome sets over all schedules, determinism in the seed, same seed as the Rust core
+    py_env_gen(ck, "py_env_calls", seeds=3 if q else 8, xcheck=3, StepSize=5, Ops=["new", "cancel", "modify", "step"], Kinds=["L", "M"],
+               Prices=[10, 11], Vols=[2] if q else [1, 2], ModPrices=[-1, 11], ModVolsAbs=[-1, 1], MaxSubmits=3 if q else 4, MaxBatch=3, MaxSteps=2,
+               MaxOrders=3, need=("schedule_matters", "has_trade", "has_modify", "has_cancel", "multi_step"), timeout=400 if q else 1800)
+    py_env_gen(ck, "py_env_errors", seeds=2 if q else 4, Ticks=(2,), StepSize=3, Ops=["new", "step", "bad"], Kinds=["L"],
+               Prices=[10, 11], Vols=[1], MaxSubmits=3, MaxBatch=2, MaxSteps=2, MaxOrders=2,
+               need=("value_error", "overflow_error", "has_trade"), timeout=400 if q else 1800)
+    py_env_gen(ck, "py_env_toggle", seeds=2 if q else 4, StepSize=3, Ops=["new", "step", "disable", "enable"], Kinds=["L", "M"],
+               Prices=[10], Vols=[1], MaxSubmits=2 if q else 3, MaxBatch=2, MaxSteps=2, MaxOrders=2,
+               need=("op_disable", "has_trade"), timeout=400 if q else 1800)
+    # long random call sequences through the Python OrderBook, validated by TLC against the same trace specification
+    # as the Rust recorder's (BookTrace.tla, Python clauses)
+    py_traces(ck, "py_rand_book", "book", files=4 if q else 32, runs=3 if q else 6, ops=150)
+    return ck.finish("model_checking", LEVEL_TEXT, PY_RULE + "paths with at least one trade",
+                     ("py_book_calls.has_trade", "py_book_toggle_snapshots.has_trade", "py_env_calls.has_trade"))
+
+
+def c19(tier, seed):
+    ck = Check("C19", tier, seed)
+    q = ck.quick
+    # asymmetric books over several price levels: every cell of the two observation arrays, every key of the
+    # dictionary, every data-frame column; StepEnv and StepEnvNumpy
+    common = dict(StepSize=4, Ops=["new", "cancel", "step"], Kinds=["L"], Prices=[10, 13] if q else [10, 11, 13], Vols=[1, 3], Traders=[5],
+                  MaxSubmits=3 if q else 4, MaxBatch=3, MaxSteps=2, MaxOrders=3 if q else 4)
+    py_env_gen(ck, "py_env_layout", mode="env", seeds=2 if q else 6, need=("asymmetric", "multi_step", "has_trade", "has_cancel"),
+               timeout=400 if q else 1800, **common)
+    py_env_gen(ck, "py_numpy_layout", mode="numpy", seeds=2 if q else 6, need=("asymmetric", "multi_step", "has_trade", "has_cancel"),
+               timeout=400 if q else 1800, **common)
+    # deeper books on a coarser grid (levels 0..9 populated differently on the two sides), market orders, modifies
+    py_env_gen(ck, "py_env_layout_deep", mode="env", seeds=2 if q else 4, Ticks=(2,), StepSize=6, Ops=["new", "modify", "step"], Kinds=["L"] if q else ["L", "M"],
+               Prices=[10, 14, 28], Vols=[2] if q else [2, 5], Sides=["B", "A"], ModPrices=[-1, 12], ModVolsAbs=[-1, 1], MaxSubmits=3, MaxBatch=3,
+               MaxSteps=2 if q else 3, MaxOrders=3, need=("asymmetric", "has_modify", "has_trade"), timeout=400 if q else 1800)
+    # data-frame helpers on books with partially filled, cancelled, rejected and modified orders
+    py_book_gen(ck, "py_book_frames", Ops=["cap", "cancel", "modify", "disable"], Prices=[10, 11], Vols=[1, 3], ModPrices=[-1],
+                ModVols=["smaller", "larger"], MaxOrders=3, MaxOps=3 if q else 4, need=("has_trade", "op_modify", "op_cancel"),
+                timeout=300 if q else 1500)
+    # random states: both environments driven with wide alphabets; TLC recomputes every array cell, dictionary entry and
+    # frame column from the order table and trade log the same object reports (PyTrace.tla)
+    py_traces(ck, "py_rand_env", "env", files=4 if q else 32, runs=3 if q else 6, ops=40)
+    py_traces(ck, "py_rand_numpy", "numpy", files=4 if q else 32, runs=3 if q else 6, ops=40)
+    return ck.finish("model_checking", LEVEL_TEXT, PY_RULE + "paths on which bid and ask quantities differ (asymmetric books)",
+                     ("py_env_layout.asymmetric", "py_numpy_layout.asymmetric", "py_env_layout_deep.asymmetric"))
+
+
+CHECKS = {"C18": c18, "C19": c19, "C01": c01, "C02": c02, "C03": c03, "C04": c04, "C05": c05, "C06": c06, "C07": c07, "C08": c08, "C09": c09, "C10": c10, "C11": c11, "C14": c14, "C15": c15, "C16": c16, "C17": c17, "C20": c20, "C12": c12, "C13": c13}
 
 
 def replay(prop, path):
@@ -611,8 +769,12 @@ def replay(prop, path):
     v = json.load(open(path))
     core.build_harness()
     if v.get("replayer"):
-        r = subprocess.run([os.path.join(core.BIN, v["replayer"])] + v.get("rargs", []) + ["--case", path],
-                           text=True, capture_output=True, env=dict(os.environ, VERIF_WORK=core.WORK))
+        if isinstance(v["replayer"], list):
+            core.build_pyext()
+            r = subprocess.run(v["replayer"] + v.get("rargs", []) + ["--case", path], text=True, capture_output=True, env=core.pyenv())
+        else:
+            r = subprocess.run([os.path.join(core.BIN, v["replayer"])] + v.get("rargs", []) + ["--case", path],
+                               text=True, capture_output=True, env=dict(os.environ, VERIF_WORK=core.WORK))
         print(r.stdout.strip()[-3000:])
         try:
             bad = json.loads(r.stdout.strip().splitlines()[-1]).get("n_mismatch", 0) > 0
